@@ -87,13 +87,16 @@ rc::Gen<uint8_t> genPay(int pct) {
 	});
 }
 
+// a state-id operand: mostly small (so that small machines see every id often), sometimes the whole byte range (ids beyond 40 on the big machines)
+int genId() { return *rng<int>(0, 4) == 0 ? *rng<int>(0, 256) : *rng<int>(0, 40); }
+
 rc::Gen<Action> genAction(const Profile& p) {
 	return rc::gen::exec([&p]() {
 		Action a;
 		a.kind = uint8_t(*weighted(p.actW, ACT_COUNT));
 		if (a.kind != ACT_NONE) {
-			a.x = uint8_t(*rng<int>(0, 40));
-			a.y = uint8_t(*rng<int>(0, 40));
+			a.x = uint8_t(genId());
+			a.y = uint8_t(genId());
 			if (a.kind == ACT_PLAN_REMOVE) a.x = uint8_t(*rng<int>(0, 256));
 			if (a.kind == ACT_REQUEST || a.kind == ACT_REQUEST_REL || a.kind == ACT_PLAN_APPEND) a.pay = *genPay(p.payPct);
 			if (a.kind == ACT_REQUEST_FWD) a.y = uint8_t(*rng<int>(0, 4));
@@ -110,8 +113,8 @@ rc::Gen<Op> genOp(const Profile& p) {
 		Op op;
 		op.code = uint8_t(*weighted(p.opW, OP_COUNT));
 		op.inst = uint8_t(*rc::gen::weightedElement<int>({{6, 0}, {2, 1}, {1, 2}}));
-		op.a = uint8_t(*rng<int>(0, 40));
-		op.b = uint8_t(*rng<int>(0, 40));
+		op.a = uint8_t(genId());
+		op.b = uint8_t(genId());
 		if (op.code == OP_PLAN_REMOVE) op.a = uint8_t(*rng<int>(0, 256));
 		if (op.code == OP_REPLAY && *rng<int>(0, 8) == 0) op.a = 0xFF;
 		if (op.code == OP_CHANGE || op.code == OP_IMMEDIATE || op.code == OP_PLAN_APPEND) op.pay = *genPay(p.payPct);
